@@ -155,4 +155,95 @@ theorem encodeTx_length {A Au} (pa : Parser A) (pu : Parser Au) (t : Tx A Au) :
     length_enc_optBytes txSpec (f := 3) rfl]
   simp [List.map_map, Function.comp_def]
 
+/-! ### key chunk lookups with an error branch -/
+
+theorem mapM?_spec {α β} {f : α → Option β} : ∀ (l : List α) (r : List β), mapM? f l = some r →
+    l.map f = r.map some := by
+  intro l
+  induction l with
+  | nil => intro r h; simp only [mapM?, Option.some.injEq] at h; subst h; rfl
+  | cons a as ih =>
+    intro r h
+    simp only [mapM?] at h
+    cases ha : f a with
+    | none => simp [ha] at h
+    | some b =>
+      simp only [ha] at h
+      cases hr : mapM? f as with
+      | none => simp [hr] at h
+      | some bs =>
+        simp only [hr, Option.some.injEq] at h
+        subst h
+        simp [ha, ih bs hr]
+
+theorem mapM?_of_forall {α β} {f : α → Option β} (g : α → β) : ∀ (l : List α),
+    (∀ x ∈ l, f x = some (g x)) → mapM? f l = some (l.map g) := by
+  intro l
+  induction l with
+  | nil => intro _; rfl
+  | cons a as ih =>
+    intro h
+    simp only [mapM?, h a (by simp), ih (fun x hx => h x (List.mem_cons_of_mem _ hx)), List.map_cons]
+
+theorem map_some_inj {β} : ∀ (a b : List β), a.map some = b.map some → a = b := by
+  intro a
+  induction a with
+  | nil => intro b h; cases b with
+    | nil => rfl
+    | cons _ _ => simp at h
+  | cons x xs ih =>
+    intro b h
+    cases b with
+    | nil => simp at h
+    | cons y ys =>
+      simp only [List.map_cons, List.cons.injEq, Option.some.injEq] at h
+      rw [h.1, ih ys h.2]
+
+/-- the chunk lists of all actions, flattened -/
+theorem flatMap_chunks {α} (chunks : Bytes → Option Nat) (ks : α → List Bytes) : ∀ (l : List α) (css : List (List Nat)),
+    mapM? (fun a => mapM? chunks (ks a)) l = some css →
+    (l.flatMap ks).map chunks = css.flatten.map some := by
+  intro l
+  induction l with
+  | nil => intro css h; simp only [mapM?, Option.some.injEq] at h; subst h; rfl
+  | cons a as ih =>
+    intro css h
+    simp only [mapM?] at h
+    cases ha : mapM? chunks (ks a) with
+    | none => simp [ha] at h
+    | some cs =>
+      simp only [ha] at h
+      cases hr : mapM? (fun a => mapM? chunks (ks a)) as with
+      | none => simp [hr] at h
+      | some rest =>
+        simp only [hr, Option.some.injEq] at h
+        subst h
+        rw [List.flatMap_cons, List.map_append, mapM?_spec _ _ ha, ih rest hr]
+        simp
+
+/-- if every key of `l` has chunks (`l.map chunks = X.map some`) then the chunks are `X` -/
+theorem chunks_total {chunks : Bytes → Option Nat} {l : List Bytes} {X : List Nat}
+    (h : l.map chunks = X.map some) :
+    (∀ k ∈ l, chunks k = some ((chunks k).getD 0)) ∧ X = l.map fun k => (chunks k).getD 0 := by
+  have h1 : ∀ k ∈ l, chunks k = some ((chunks k).getD 0) := by
+    intro k hk
+    have : chunks k ∈ X.map some := by rw [← h]; exact List.mem_map_of_mem hk
+    obtain ⟨x, _, hx⟩ := List.mem_map.mp this
+    rw [← hx]; rfl
+  refine ⟨h1, ?_⟩
+  apply map_some_inj
+  rw [← h, List.map_map]
+  apply List.map_congr_left
+  intro k hk
+  exact h1 k hk
+
+/-! ### uint64 as 8 little-endian bytes -/
+
+theorem ofLE64_le64 {n : Nat} (h : n < 2 ^ 64) : ofLE64 (le64 n) = n := by
+  have hb : ∀ x : Nat, (UInt8.ofNat (x % 256)).toNat = x % 256 :=
+    fun x => toNat_ofNat_lt (Nat.mod_lt _ (by decide))
+  unfold le64 ofLE64
+  simp only [List.foldr_cons, List.foldr_nil, hb]
+  omega
+
 end HyperModel.Estimate
